@@ -63,6 +63,13 @@ func main() {
 		fmt.Fprintf(os.Stderr, "known findings: %v\n", err)
 		os.Exit(2)
 	}
+	if d := os.Getenv("VERIF_DUMPFLOW"); d != "" {
+		parts := strings.SplitN(d, ":", 2)
+		c := newCtx(prog, "C00", *tier, known)
+		c.def = &propDef{id: "C00"}
+		c.Rule("dump", func() { fmt.Println(c.NewFlow(c.Func(parts[0], parts[1])).Dump()) })
+		return
+	}
 	exit := 0
 	for _, id := range ids {
 		t0 := time.Now()
